@@ -3,15 +3,15 @@ import importlib
 
 # prop: (module, class, block size, quick runs, thorough runs)
 REGISTRY = {
-    'C01': ('sim.machines.store_data', 'DataStoreMachine', 64, 4000, 80000),
-    'C03': ('sim.machines.store_geo', 'GeoStoreMachine', 64, 4000, 80000),
-    'C05': ('sim.machines.listing', 'TableMachine', 32, 2000, 40000),
-    'C06': ('sim.machines.listing', 'HistoryMachine', 64, 4000, 60000),
-    'C07': ('sim.machines.listing', 'NavMachine', 64, 4000, 60000),
-    'C08': ('sim.machines.edit_grid', 'GridMachine', 64, 8000, 150000),
-    'C09': ('sim.machines.edit_grid', 'GridPhysicsMachine', 64, 6000, 100000),
-    'C10': ('sim.machines.edit_geo', 'GeoMachine', 64, 2400, 60000),
-    'C13': ('sim.machines.store_incon', 'InconMachine', 128, 12000, 200000),
+    'C01': ('sim.machines.store_data', 'DataStoreMachine', 64, 4000, 500000),
+    'C03': ('sim.machines.store_geo', 'GeoStoreMachine', 64, 4000, 300000),
+    'C05': ('sim.machines.listing', 'TableMachine', 32, 2000, 60000),
+    'C06': ('sim.machines.listing', 'HistoryMachine', 64, 4000, 200000),
+    'C07': ('sim.machines.listing', 'NavMachine', 64, 3000, 100000),
+    'C08': ('sim.machines.edit_grid', 'GridMachine', 64, 8000, 300000),
+    'C09': ('sim.machines.edit_grid', 'GridPhysicsMachine', 64, 6000, 300000),
+    'C10': ('sim.machines.edit_geo', 'GeoMachine', 64, 2400, 80000),
+    'C13': ('sim.machines.store_incon', 'InconMachine', 128, 12000, 600000),
 }
 
 
